@@ -60,6 +60,58 @@ def binders(text):
     return out
 
 
+def sig_params(text, name):
+    """[(param name, normalised type)] of fn `name` in text, self receivers skipped; None if it cannot be read"""
+    mask = code_mask(text)
+    for mm in re.finditer(r'\bfn\s+' + re.escape(name) + r'\b', text):
+        if mask[mm.start()] != CODE:
+            continue
+        k = mm.end()
+        # skip generics
+        while k < len(text) and text[k] in ' \t\r\n':
+            k += 1
+        if k < len(text) and text[k] == '<':
+            depth = 0
+            while k < len(text):
+                if text[k] == '<':
+                    depth += 1
+                elif text[k] == '>' and text[k - 1] != '-':
+                    depth -= 1
+                    if depth == 0:
+                        k += 1
+                        break
+                k += 1
+        op = text.find('(', k)
+        if op < 0:
+            return None
+        cp = match_close(text, mask, op)
+        inner = text[op + 1:cp]
+        parts, depth, cur = [], 0, ''
+        for ch in inner:
+            if ch in '([{<':
+                depth += 1
+            elif ch in ')]}>':
+                depth -= 1
+            if ch == ',' and depth == 0:
+                parts.append(cur)
+                cur = ''
+            else:
+                cur += ch
+        if cur.strip():
+            parts.append(cur)
+        out = []
+        for p_ in parts:
+            p_ = p_.strip()
+            if re.match(r'(&\s*(\'\w+\s+)?)?(mut\s+)?self\b', p_):
+                continue
+            m2 = re.match(r'(?:mut\s+)?([A-Za-z_][A-Za-z0-9_]*)\s*:\s*(.*)$', p_, re.S)
+            if not m2:
+                return None
+            out.append((m2.group(1), norm_ws(m2.group(2))))
+        return out
+    return None
+
+
 def rename_map(base, cur):
     """a consistent old->new renaming when the two binder lists have the same shape, else None"""
     if base is None or len(base) != len(cur) or base == cur:
@@ -142,11 +194,13 @@ class Unit:
         self.canary_points = []  # (gen line index) where assert(false) may be inserted
         self.binders = {}
         self.binders_raw = {}
+        self.params = {}
         self.pending_replace_rename = {}
         lp = os.path.join(os.path.dirname(template_path), 'locals.json')
         base = json.load(open(lp)) if os.path.exists(lp) else {}
         self.base_binders = base.get('after_rules', {})
         self.base_binders_raw = base.get('raw', {})
+        self.base_params = base.get('params', {})
         self.gen = Gen()
 
     def source(self, alias):
@@ -605,6 +659,33 @@ class Unit:
             log.append(dict(rule='hint-rename', before=', '.join(sorted(rm)), after=', '.join(rm[k] for k in sorted(rm)),
                             reason='locals renamed in the code; proof hints follow (contracts mention parameters only)'))
             self.pending_replace_rename[path] = rn
+        # --- parameter renames: contracts are written against the parameters' names at authoring time; if the signature has
+        # the same parameter types in the same order under other names, contracts and hints follow ---
+        cur_p = sig_params(text, loc['name'])
+        self.params[path] = cur_p
+        base_p = self.base_params.get(path)
+        if base_p and cur_p and len(base_p) == len(cur_p) and [t_ for _, t_ in base_p] == [t_ for _, t_ in cur_p] and [n_ for n_, _ in base_p] != [n_ for n_, _ in cur_p]:
+            prm = {a: b for (a, _), (b, _) in zip(base_p, cur_p) if a != b}
+            if not any(b in [n_ for n_, _ in base_p] for b in prm.values()):
+                def rnp(t):
+                    parts = re.split(r'("(?:[^"\\]|\\.)*")', t)
+                    for k in range(0, len(parts), 2):
+                        for a, b in prm.items():
+                            parts[k] = re.sub(r'(?<![A-Za-z0-9_@{.])' + re.escape(a) + r'(?![A-Za-z0-9_])', b, parts[k])
+                    return ''.join(parts)
+                for key in ('requires', 'ensures', 'decreases'):
+                    spec[key] = [rnp(l) for l in spec[key]]
+                for h in spec['hints']:
+                    if h.get('anchor'):
+                        h['anchor'] = rnp(h['anchor'])
+                    h['lines'] = [rnp(l) for l in h['lines']]
+                for ent in spec['loops'].values():
+                    ent['lines'] = [rnp(l) for l in ent['lines']]
+                spec['closures'] = {k: rnp(v) for k, v in spec['closures'].items()}
+                if spec.get('tail'):
+                    spec['tail']['lines'] = [rnp(l) for l in spec['tail']['lines']]
+                log.append(dict(rule='param-rename', before=', '.join(sorted(prm)), after=', '.join(prm[k] for k in sorted(prm)),
+                                reason='parameters renamed in the code (same types, same order); contracts and hints follow'))
         # --- split signature / body ---
         sn = Snippet(text)
         mfn = None
